@@ -8,7 +8,6 @@ and a real ``ParamMapper`` in both directions; generated and repo test reactors 
 ``resampleStepwise`` as pure functions.  Oracles are numpy one-liners over the harness's own overlap matrix.
 """
 import itertools
-import math
 import random
 
 import numpy as np
@@ -833,7 +832,7 @@ def do_testreactors(spec, rec):
         mode = rng.choice(["small", "small", "none"])
         w["perturbation"] = mode
         perturb_heights(rng, r.core, mode)
-        reactor_case(rec, rng, r, o.cs, w, sample=False, same_height_only=True)
+        reactor_case(rec, rng, r, o.cs, w, sample=False)
         # then assemblies of the test reactor through the assembly-level workload (afterwards: that workload leaves arrays of
         # different lengths on blocks it did not touch, which would not be a valid state for convert())
         for a in rng.sample(list(r.core), min(4, len(r.core))):
@@ -841,11 +840,7 @@ def do_testreactors(spec, rec):
             one_remesh_case(rec, rng, a, [b.getType() for b in a], hs, "%s-%d-%s" % (which, i, a.getName()), sample_ok=False)
 
 
-def total_heights(core):
-    return [sum(b.getHeight() for b in a) for a in core]
-
-
-def reactor_case(rec, rng, r, cs, w, sample=False, same_height_only=False):
+def reactor_case(rec, rng, r, cs, w, sample=False):
     from armi.reactor.converters import uniformMesh as um
     from armi.reactor.flags import Flags
     from vlib.env import quiet
